@@ -230,7 +230,12 @@ class CEmitter:
         ret_c = "void" if t[2] == ("unit",) else self.c_ty(t[2])
         params = ["const void* data"] + ["%s a%d" % (self.c_ty(a), i) for i, a in enumerate(t[1])]
         body = []
-        body.append("int* cnt = (int*)data; int j = (*cnt)++;")
+        # a stateless callback is a legitimate foreign callback: `data` may be NULL (or a zero handle) and the destructor must still run
+        if v.get("null_data"):
+            self.decls.append("static int cb_cnt_%d = 0;" % n)
+            body.append("if (data != NULL) { printf(\"CB %d got a data pointer it never passed\\n\"); abort(); } int j = cb_cnt_%d++;" % (n, n))
+        else:
+            body.append("int* cnt = (int*)data; int j = (*cnt)++;")
         body.append("printf(\"CB %d#%%d\", j);" % n)
         for i, a in enumerate(t[1]):
             body.append("printf(\" \");")
@@ -245,6 +250,8 @@ class CEmitter:
             body.append("printf(\"CB %d called too often\\n\"); abort();" % n)
         self.decls.append("static %s cb_run_%d(%s) {\n  %s\n}" % (ret_c, n, ", ".join(params), "\n  ".join(body)))
         self.decls.append("static void cb_drop_%d(const void* data) { printf(\"CBDROP %d\\n\"); free((void*)data); }" % (n, n))
+        if v.get("null_data"):
+            return "(%s){ .data = NULL, .run_callback = cb_run_%d, .destructor = %s }" % (cty, n, ("cb_drop_%d" % n) if v["destructor"] else "NULL")
         d = self.fresh("cbd")
         pre.append("int* %s = calloc(1, sizeof(int));" % d)
         if v["destructor"]:
